@@ -732,6 +732,15 @@ class Interp:
         x = a[0]
         trait = c.get("trait") or ""
         tshort = trait.split("::")[-1]
+        if name.startswith("simd_") and tshort in ("SimdComplexField", "SimdRealField"):
+            # simba's blanket impl: simd_<m> == <m> of ComplexField / RealField
+            name = name[5:]
+            for t2 in ("ComplexField", "RealField"):
+                for imp in self.F.impls_of(t2, x.adt):
+                    b = self.F.impl_item(imp, name)
+                    if b is not None:
+                        return self.call_body(b, args, e)
+            self.unsupported("simd forward %s on %s" % (name, x.adt), e)
         cands = []
         for imp in self.F.impls_of(tshort, x.adt):
             if trait and imp.get("trait") != trait and not imp.get("trait", "").endswith(tshort):
@@ -1298,3 +1307,74 @@ class OrdV:
     def __init__(self, a, b):
         self.a = a
         self.b = b
+
+    def __repr__(self):
+        return "partial_cmp(%r, %r)" % (self.a, self.b)
+
+
+# ----------------------------------------------------------------------------- domain C (dependencies)
+class Dep:
+    """set of (operand part / parameter) names a scalar value depends on (data dependence)"""
+    __slots__ = ("s",)
+
+    def __init__(self, s=()):
+        self.s = frozenset(s)
+
+    def __or__(self, o):
+        return Dep(self.s | o.s)
+
+    def rename_idx(self, mp):
+        return self
+
+    def show(self):
+        return "{" + ", ".join(sorted(self.s)) + "}"
+
+    def __repr__(self):
+        return "Dep" + self.show()
+
+
+class DomC:
+    """sound dependency domain: every operation's result depends on the union of its operands' dependencies
+    (no algebraic cancellation is used, so `not a single bit` follows for deterministic float operations)"""
+    name = "C"
+
+    def __init__(self):
+        self.counter = 0
+
+    def const(self, c):
+        return Dep()
+
+    def named(self, name):
+        return Dep()
+
+    def _u(self, a, b):
+        return a | b
+
+    add = sub = mul = div = rem = _u
+
+    def neg(self, a):
+        return a
+
+    recip = neg
+
+    def powi(self, a, n):
+        return a | n
+
+    powf = powi
+
+    def fn(self, name, a):
+        return a
+
+    def fn2(self, name, a, b):
+        return a | b
+
+    def key(self, a):
+        # every guard evaluation is its own decision (no merging of distinct conditions)
+        self.counter += 1
+        return ("dep", self.counter, a.s)
+
+    def show(self, a):
+        return a.show()
+
+    def concrete(self, a):
+        return None
